@@ -479,8 +479,158 @@ def check_fb(case, ans):
     return None
 
 
+HMOD = 2305843009213693951
+
+
+def _pskip(n):
+    return 3 if n <= 1999 else 5 if n <= 4999 else 7 if n <= 9999 else 11 if n <= 19999 else 13 if n <= 49999 else 17
+
+
+def _u8add(dbg, t, lg):
+    """-> (value, overflowed)"""
+    v = t + lg
+    if v >= 256:
+        return (None, True) if dbg else (v % 256, True)
+    return v, False
+
+
+def check_svb(case, ans):
+    """Independent recomputation of the byte array of sieve_block and of the positions smooths reports:
+    blk[x] = sum of the bit lengths of the non-skipped primes with a root at x (u8: the checked profile must panic
+    exactly when a sum reaches 256 / a threshold operation overflows, release wraps); reported = positions with
+    blk[x] > threshold2 whose corrected value reaches the threshold."""
+    a = case.args
+    dbg = a[0] == "d1"
+    root = None if a[1] == "none" else int(a[1])
+    P = [int(x) for x in a[2].split(",")]
+    L = lambda s: [] if s == "-" else [int(x) for x in s.split(",")]
+    nskip = sum(1 for p in P if p <= _pskip(len(P)))       # P is increasing
+    cur = None
+    i = 3
+    expect_panic = None
+    lines = []
+    if ans.startswith("ok | "):
+        body = ans[5:]
+        lines = body.split(";") if body else []
+    elif ans != "panic":
+        return f"no answer ({ans})"
+    li = 0
+    while i < len(a):
+        c = a[i]
+        if c == "new":
+            R1, R2 = L(a[i + 3]), L(a[i + 4])
+            nb = int(a[i + 2])
+            over, total, ltotal = bucket_overflows(P, R1, R2, nb)
+            cur = {"nb": nb, "small": (R1, R2), "large": (R1, R2), "B": 0, "blk_no": 0,
+                   "exact": not any(total) and not any(ltotal.values())}
+            i += 5
+            continue
+        if c == "rehash":
+            R1, R2 = L(a[i + 1]), L(a[i + 2])
+            cur["large"] = (R1, R2)
+            cur["blk_no"] = 0
+            if cur["nb"]:
+                over, total, ltotal = bucket_overflows(P, R1, R2, cur["nb"])
+                cur["exact"] = not any(total) and not any(ltotal.values())
+            i += 3
+            continue
+        k = int(a[i + 1])
+        for _ in range(k if c == "skip" else 1):
+            # sums of this block
+            sums = {}
+            have_tables = P[-1] >= BLOCK
+            for j, p in enumerate(P):
+                if j < nskip:
+                    continue
+                small = p < BLOCK
+                R1, R2 = cur["small"] if small else cur["large"]
+                base = (cur["B"] if small else cur["blk_no"]) * BLOCK
+                if not small and base + BLOCK > cur["nb"] * BLOCK:
+                    continue
+                for o in {R1[j], R2[j]} if small else (R1[j], R2[j]):
+                    r = (o - base) % p
+                    while r < BLOCK:
+                        sums[r] = sums.get(r, 0) + p.bit_length()
+                        r += p
+            mx = max(sums.values()) if sums else 0
+            if mx >= 256 and dbg:
+                expect_panic = f"a position of block {cur['B']} accumulates {mx} >= 256"
+                break
+            if c == "blk":
+                thr = k
+                sb = sum(P[j].bit_length() for j in range(nskip)) + (15 if root is not None else 0)
+                thr2 = thr - min(sb, thr // 2)
+                if thr2 == 0 and dbg:
+                    expect_panic = "threshold2 - 1 underflows"
+                    break
+                mz = 32 - (cur["nb"] * BLOCK // 2).bit_length()
+                res = []
+                R1, R2 = cur["small"]
+                for x in sorted(sums):
+                    t = sums[x] % 256
+                    if thr2 == 0 or t <= thr2:
+                        continue
+                    for j in range(nskip):
+                        p = P[j]
+                        m = (cur["B"] * BLOCK + x) % p
+                        if m == R1[j] or m == R2[j]:
+                            t, ovf = _u8add(dbg, t, p.bit_length())
+                            if t is None:
+                                break
+                    if t is not None and root is not None:
+                        xx = x + cur["blk_no"] * BLOCK - cur["nb"] * BLOCK // 2
+                        dist = abs(abs(xx) - root)
+                        z = 32 - dist.bit_length()
+                        if z > mz:
+                            t, ovf = _u8add(dbg, t, z - mz)
+                    if t is None:
+                        expect_panic = f"t += log overflows at position {x}"
+                        break
+                    if t >= thr:
+                        res.append(x)
+                if expect_panic:
+                    break
+                if ans == "panic":
+                    return "panic although no u8 operation overflows (recomputed from primes and roots)"
+                if li >= len(lines):
+                    return "missing block dump"
+                t = lines[li].split(" ")
+                li += 1
+                d = dict(x.split("=") for x in t[1:4])
+                got = [int(x.split(":")[0]) for x in t[4:]]
+                if cur["exact"]:
+                    h = 0
+                    for x in range(BLOCK):
+                        h = (h * 1000003 + sums.get(x, 0) % 256 + 1) % HMOD
+                    if int(d["h"]) != h or int(d["mx"]) != (max(v % 256 for v in sums.values()) if sums else 0):
+                        return (f"blk of block {cur['B']} is not the sum of the bit lengths of the primes with a root at each "
+                                f"position (max {d['mx']}, expected {mx})")
+                    if got != res:
+                        miss = sorted(set(res) - set(got))[:5]
+                        extra = sorted(set(got) - set(res))[:5]
+                        return f"reported positions differ from the threshold rule: missing {miss}, extra {extra}"
+                st = svb_stats.setdefault(case.line, {"max": 0, "reported": 0})
+                st["max"] = max(st["max"], mx)
+                st["reported"] += len(got)
+            cur["B"] += 1
+            cur["blk_no"] += 1
+        if expect_panic:
+            break
+        i += 2
+    if expect_panic:
+        return None if ans == "panic" else f"no panic although {expect_panic}"
+    if ans == "panic":
+        return "panic although no u8 operation overflows (recomputed from primes and roots)"
+    return None
+
+
+svb_stats = {}
+
+
 def oracle(case, ans):
     op = case.op
+    if op == "svb":
+        return check_svb(case, ans)
     if ans in ("panic", "abort", "hang", "?"):
         return f"no answer ({ans})"
     if op == "sv":
@@ -854,8 +1004,90 @@ def boundary_cases(rng, tier):
         yield Case(scenario(rng, P, "plain", 2, "n60", True), k=False, tag=f"K sv/{size}/plain", timeout=300)
 
 
+def blk_cases(rng, quick):
+    """log accumulation (`svb`): every scenario is sent twice, d1 to the checked profile and d0 to release (the model
+    takes the profile as an argument); model comparison on."""
+    out = []
+
+    def emit(root, P, cmds, tag):
+        body = f"{'none' if root is None else root} {lst(P)} " + " ".join(cmds)
+        out.append(Case("svb d1 " + body, tag="blk/" + tag, profiles=["chk"], timeout=300))
+        out.append(Case("svb d0 " + body, tag="blk/" + tag, profiles=["release"], timeout=300))
+
+    def newcmd(off, nb, R1, R2):
+        return f"new {off} {nb} {lst(R1)} {lst(R2)}"
+    sizes = [(40, 0.5), (40, 1.0), (300, 0.5), (1900, 0.5), (2100, 0.5), (3600, 0.5)] + ([] if quick else [(3600, 1.0), (23000, 0.5)])
+    for rep in range(2 if quick else 6):
+        for size, dens in sizes:
+            P = make_fb(rng, size, dens)
+            nb = rng.choice([1, 2, 3])
+            R1, R2 = make_roots(rng, P, single=rng.choice([0.0, 0.05]))
+            root = rng.choice([None, rng.randrange(0, nb * BLOCK // 2 + 1)])
+            # thresholds around the typical sums: a few hundred reports at most
+            base = {40: 18, 300: 26, 1900: 34, 2100: 34, 3600: 36, 23000: 40}[size] + (6 if root is not None else 0)
+            cmds = [newcmd(rng.choice([0, -nb * BLOCK // 2]), nb, R1, R2)]
+            shape = rng.choice(["plain", "skip", "recycle", "rehash"])
+            if shape == "skip" and nb > 1:
+                cmds.append(f"skip {nb - 1}")
+                cmds.append(f"blk {base + rng.randrange(0, 8)}")
+            elif shape == "recycle":
+                cmds.append("blk 200")
+                A1, A2 = make_roots(rng, P, single=0.0)
+                cmds.append(newcmd(0, nb, A1, A2))
+                cmds += [f"blk {base + rng.randrange(0, 8)}"] * nb
+            elif shape == "rehash":
+                cmds += [f"blk {base + 4}"] * nb
+                S1, S2 = shift_roots(P, R1, nb * BLOCK), shift_roots(P, R2, nb * BLOCK)
+                cmds.append(f"rehash {lst(S1)} {lst(S2)}")
+                cmds.append(f"blk {base + rng.randrange(0, 8)}")
+            else:
+                cmds += [f"blk {base + rng.randrange(0, 8)}" for _ in range(nb)]
+            emit(root, P, cmds, f"{size}/{shape}")
+    # threshold edges: 0 (threshold2 - 1 underflows in the checked profile), 1, 2, 255
+    P = make_fb(rng, 60, 0.7)
+    R1, R2 = make_roots(rng, P)
+    for thr in (0, 1, 2, 3, 255):
+        emit(rng.choice([None, 5000]), P, [newcmd(0, 1, R1, R2), f"blk {thr}"], f"thr{thr}")
+    # sums next to 255 / 256: many primes share one position (checked profile: panic from 256 on; release wraps)
+    for total in ([250, 254, 255, 256, 257, 262, 300] if quick else [240, 250, 253, 254, 255, 256, 257, 258, 262, 280, 300, 520]):
+        for small_only in (True, False):
+            P = make_fb(rng, 400 if small_only else 3400, 0.5)
+            R1, R2 = make_roots(rng, P, single=0.0)
+            nb = 2
+            blkno = rng.choice([0, 1])
+            x0 = rng.randrange(BLOCK)
+            nskip = sum(1 for p in P if p <= _pskip(len(P)))
+            idx = list(range(nskip, len(P)))
+            rng.shuffle(idx)
+            acc = 0
+            # the real roots at x0 first, then primes are moved onto x0 until the sum is exactly `total`
+            for j, p in enumerate(P):
+                if j >= nskip and ((blkno * BLOCK + x0) % p in (R1[j], R2[j])):
+                    acc += p.bit_length()
+            for j in idx:
+                p = P[j]
+                if (blkno * BLOCK + x0) % p in (R1[j], R2[j]):
+                    continue
+                if acc + p.bit_length() > total:
+                    continue
+                R1[j] = (blkno * BLOCK + x0) % p
+                if R2[j] == R1[j]:
+                    R2[j] = (R1[j] + 1) % p
+                acc += p.bit_length()
+                if acc == total:
+                    break
+            cmds = [newcmd(0, nb, R1, R2)] + ([f"skip {blkno}"] if blkno else []) + [f"blk {rng.choice([60, 200, 250])}"]
+            emit(None, P, cmds, f"sum{total}/{'small' if small_only else 'tables'}")
+    # the skipped primes' logs are added in u8 inside smooths: a byte next to 255 plus the skipped logs
+    P = make_fb(rng, 400, 0.5, 0)
+    R1, R2 = make_roots(rng, P, single=0.0)
+    emit(7, P, [newcmd(0, 1, R1, R2), "blk 20"], "lowthr-root")
+    return out
+
+
 def cases(tier, rng, extended=False):
     yield from boundary_cases(_fork(rng, "C13-boundary"), tier)
+    yield from blk_cases(_fork(rng, "C13-blk"), tier == "quick")
     quick = tier == "quick"
     scale = 1 if quick else 6
     if extended:
@@ -936,6 +1168,10 @@ def corpus_case(line):
 
 def klass(case, ans):
     op = case.op
+    if op == "svb":
+        st = svb_stats.get(case.line, {})
+        band = "" if ans == "panic" else ("/max>=200" if st.get("max", 0) >= 200 else "/max<200")
+        return f"svb/{case.args[0]}/{case.tag.split('/')[1]}/{'panic' if ans == 'panic' else 'ok'}{band}"
     bad = "" if not (ans in ("panic", "abort", "hang", "?")) else "/" + ans
     if op == "sv":
         st = case_stats.get(case.line)
